@@ -5,10 +5,15 @@
    window honours the window contract against the plain negamax value, and an answer strictly
    inside the window IS that value, whatever fuel either ran with; the oracle answers whenever the
    plain value exists; the ordering it uses is a sorted permutation; the leaf rules of the
-   specification.  Not proved: that the engine's PVS/null-move/killer search equals negamax. *)
+   specification.  And the engine's own search: principal-variation search with zero-window re-search,
+   full-window first move, PV/killer ranking, mate-distance window clamp, check extension and fail-hard capture
+   quiescence honours the window contract of the plain negamax value at node depths 0-2 (root iterations 1-3,
+   where the null move cannot fire), for every ordering oracle that returns permutations, every state and window;
+   so an uninterrupted iteration of depth 1-3 reports exactly the negamax value of the position and sends a move
+   that attains it.  Not proved: anything about depths where the null move applies (speculative by design). *)
 From Coq Require Import Permutation.
 From Walleye Require Import Model.Search Spec.Minimax Proofs.SortProofs Proofs.DrawTableProofs Proofs.SearchBasics
-     Proofs.AlphaBeta.
+     Proofs.AlphaBeta Proofs.TableRestored Proofs.RootProofs Proofs.PVS Proofs.OhCongruence Proofs.PVSRoot Gen.ZobristTable.
 Open Scope Z_scope.
 
 (* the executable oracle against the readable definition: for every position, depth, ply, record and window *)
@@ -51,7 +56,77 @@ Proof.
   - destruct H as [H|H]; [|discriminate]. destruct (Z.eqb_spec d 0); [contradiction|]. reflexivity.
 Qed.
 
+(* ---- the engine's search itself *)
+(* the plain value of a node does not depend on its ordering field, so ranking moves cannot change it *)
+Theorem C12_value_ignores_the_ordering_field : forall zt F a b d ply t,
+  same_move a b -> negamax zt F a d ply t = negamax zt F b d ply t.
+Proof. exact negamax_same. Qed.
+
+(* alpha_beta_search, not interrupted (expiry index None), at node depth 0..2 (so the null move, which needs depth 3,
+   never fires), on any window a < be, from any search state whose repetition record is t as a lookup function,
+   with any ordering oracle that returns permutations: the value returned bounds the plain negamax value w the way
+   the window says, and is w itself when strictly inside the window.  F is the height within which the plain value
+   is defined (check extensions make the tree as deep as the checks go); ply + F <= 100 keeps mate distances apart
+   from static evaluations. *)
+Theorem C12_search_honours_the_window : forall zt osort,
+  (forall i l, Permutation l (osort i l)) ->
+  forall f F b d ply a be n s v s' w t,
+  0 <= d <= 2 -> 0 <= ply -> ply + Z.of_nat F <= 100 -> a < be ->
+  dt_nonneg t -> dt_equiv (table s) t ->
+  alpha_beta zt osort None f b d ply a be n s = Ok (v, s') -> negamax zt F b d ply t = Some w ->
+  (v <= a -> w <= v) /\ (a < v < be -> w = v) /\ (be <= v -> v <= w).
+Proof. intros zt osort P f F. exact (search_exact zt osort P f F). Qed.
+
+(* quiescence alone: the clamp of the plain capture-search value to the window *)
+Theorem C12_quiescence_is_the_clamped_value : forall zt osort,
+  (forall i l, Permutation l (osort i l)) ->
+  forall f F b a be s v s' w, a < be -> quiesce zt osort None f b a be s = Ok (v, s') -> qvalue zt F b = Some w ->
+  v = Z.min be (Z.max a w).
+Proof. intros zt osort P f F. exact (quiesce_exact zt osort P f F). Qed.
+
+(* one root iteration of depth 1..3, not interrupted, over any list that is a permutation of the generated moves
+   with ordering fields changed (what root_depths passes: mark_pv then sort): the newest events are the info line
+   with the exact value A = max over the moves of minus the child's plain value, and the send of a move attaining it *)
+Theorem C12_iteration_reports_the_exact_value : forall zt osort,
+  (forall i l, Permutation l (osort i l)) ->
+  forall fuel F first t d b ms0 ms ws A r o r2,
+  1 <= d <= 3 -> 1 + Z.of_nat F <= 100 -> dt_nonneg t ->
+  generate_moves zt b AllMoves <> [] ->
+  Forall2 same_move ms0 (generate_moves zt b AllMoves) -> Permutation ms0 ms ->
+  Forall2 (fun m x => negamax zt F m (d - 1) 1 t = Some x) (generate_moves zt b AllMoves) ws -> is_max A (map Z.opp ws) ->
+  dt_equiv (table (r_s r)) t ->
+  root_moves zt osort None fuel first ms d NEG_INF r = Ok (o, r2) ->
+  exists r' mov line evs x,
+    o = Some r' /\ r_events r' = Info d A line :: Send mov :: evs /\ r_best r' = Some mov /\
+    In mov ms /\ negamax zt F mov (d - 1) 1 t = Some x /\ - x = A.
+Proof. exact root_iteration_value. Qed.
+
+Theorem C12_pv_mark_changes_ordering_field_only : forall best l, Forall2 same_move (mark_pv best l) l.
+Proof. exact mark_pv_same. Qed.
+
+(* non-vacuity: a position (K+R v K), the engine's table, the stable sort as the ordering oracle (a permutation by
+   C12_oracle_ordering_is_a_sorted_permutation): every child has a plain value within height 12, and the model's
+   depth-2 iteration reports their maximum, 571 *)
+Definition ex_fen : str := [55;107;47;56;47;53;75;50;47;56;47;56;47;56;47;56;47;54;82;49;32;119;32;45;32;45;32;48;32;49]%N.
+Definition ex_b := match from_fen zt_concrete ex_fen with Ok s => s | _ => mkBoard [] White None (0,0) (0,0) false false false false 0 None None 0 end.
+Definition ex_t : dtable := [(zobrist_key ex_b, 1)].
+Example C12_concrete_iteration :
+  let zt := zt_concrete in
+  let gen := generate_moves zt ex_b AllMoves in
+  let ws := [-539; -559; -541; -571; -545; -552; -536; -555; -558; -558; -564; -566; 0; -69; -550; -554; -562; -566; -568; -566; -555] in
+  map (fun m => negamax zt 12 m 1 1 ex_t) gen = map Some ws /\
+  match root_moves zt (fun _ l => stable_sort_desc l) None 60 ex_b (stable_sort_desc gen) 2 NEG_INF (mkR (new_search ex_t) None []) with
+  | Ok (Some r, _) => match r_events r with Info d e _ :: Send _ :: _ => (d, e) = (2, 571) | _ => False end
+  | _ => False
+  end.
+Proof. vm_compute. split; reflexivity. Qed.
+
 Print Assumptions C12_oracle_window_contract.
+Print Assumptions C12_value_ignores_the_ordering_field.
+Print Assumptions C12_search_honours_the_window.
+Print Assumptions C12_quiescence_is_the_clamped_value.
+Print Assumptions C12_iteration_reports_the_exact_value.
+Print Assumptions C12_pv_mark_changes_ordering_field_only.
 Print Assumptions C12_oracle_is_minimax.
 Print Assumptions C12_oracle_answers.
 Print Assumptions C12_more_fuel_same_answer.
